@@ -237,12 +237,18 @@ def all_candidates():
     return _ALL
 
 
-def route_one(arg, month, dow_offset):
+def route_one(arg, month, dow_offset, carry=False):
     """returns (problems) for the date with the given month and day-of-week under the settings variant `arg`"""
     m = dm.DailyModel(settings=CUSTOM[arg] or None)
     d0 = pd.Timestamp(year=2021, month=month, day=8, tz="US/Pacific")
     t = d0 + pd.Timedelta(days=(dow_offset - d0.dayofweek) % 7)
     df = pd.DataFrame({"temperature": [50.0], "observed": [1.0]}, index=pd.DatetimeIndex([t]))
+    if carry:
+        # frames handed out by the data classes (and earlier prediction frames) already carry calendar columns built from
+        # the DEFAULT tables; the model must route by its own settings
+        default = dm.DailyModel()
+        df.insert(0, "season", [default.settings.season._num_dict[t.month]])
+        df.insert(1, "day_of_week", [((t.dayofweek + 3) % 7) + 1])
     meter, _ = m._initialize_data(df)
     season = m.settings.season._num_dict[t.month]
     daytype = m.settings.weekday_weekend._num_dict[t.dayofweek + 1]
@@ -260,7 +266,7 @@ def route_one(arg, month, dow_offset):
 
 
 def replay_route(inp):
-    pr, d = route_one(inp["arg"], inp["month"], inp["dow"])
+    pr, d = route_one(inp["arg"], inp["month"], inp["dow"], inp.get("carry", False))
     return bool(pr), "; ".join(pr[:3])
 
 
@@ -270,16 +276,17 @@ def run_route(case, arg):
     def run():
         month = F.choose("month", list(range(1, 13)))
         dow = F.choose("dow", list(range(7)))
-        return month, dow, route_one(arg, month, dow)
+        carry = F.choose("carry", [False, True])
+        return month, dow, carry, route_one(arg, month, dow, carry)
 
     paths = case.explore(run)
     for p in paths:
         if p.outcome != "ret":
             case.rep["harness_errors"].append(f"route raised {p.value!r}")
             continue
-        month, dow, (pr, d) = p.value
-        case.prove(p, not pr, "every candidate split has exactly one component selecting the day: the one of its season and day type",
-                   replay=("route", (lambda a, b: lambda mdl: dict(arg=arg, month=a, dow=b))(month, dow)))
+        month, dow, carry, (pr, d) = p.value
+        case.prove(p, not pr, "every candidate split has exactly one component selecting the day: the one of its season and day type under the model's own settings",
+                   replay=("route", (lambda a, b, c: lambda mdl: dict(arg=arg, month=a, dow=b, carry=c))(month, dow, carry)))
         if len(case.rep["samples"]) < 2:
             case.sample(dict(settings=arg, date=d, candidates_checked=len(all_candidates())))
 
